@@ -100,11 +100,16 @@ Definition chain_imp (ants:list pat) (concl:pat) : pat := fold_right Imp concl a
 (** the pattern the converter stores for an assertion: for [|-] and [#Pattern] statements the image
     of the term, with the [$e] antecedents as an implication chain; for a [#Notation] statement
     the image of its left-hand side *)
-Definition axiom_pat (d:db) (sid:N->N) (a:assertion) : pat :=
+(** [axiom.pattern]: the image of the statement's term (conclusion only) *)
+Definition concl_pat (d:db) (sid:N->N) (a:assertion) : pat :=
   match a_stmt a with
-  | (_, t::_) => chain_imp (map (fun e => img d sid (stmt_term (snd e))) (a_ess a)) (img d sid t)
+  | (_, t::_) => img d sid t
   | _ => phi 0
   end.
+(** [axiom.antecedents]: the images of the [$e] statements of the block *)
+Definition ants_pat (d:db) (sid:N->N) (a:assertion) : list pat :=
+  map (fun e => img d sid (stmt_term (snd e))) (a_ess a).
+Definition axiom_pat (d:db) (sid:N->N) (a:assertion) : pat := chain_imp (ants_pat d sid a) (concl_pat d sid a).
 
 (** symbols of a pattern in the order [Interpreter.pattern] emits them *)
 Fixpoint psyms (p:pat) : list N :=
